@@ -532,10 +532,19 @@ pub struct Walk {
     pub stop: Stop,
 }
 
-/// Bytes a hash map of `count` (u64, 32-byte hash) entries needs at least (41 bytes per bucket,
-/// at least as many buckets as entries) — a lower bound, so `> limit` is a sound oversize verdict.
-pub fn map_lower_bound(count: u64) -> u64 {
-    count.saturating_mul(41)
+/// Bytes `HashMap::<u64, rrdp::Hash>::with_capacity(max(count, 65536))` asks the allocator for in one
+/// request (hashbrown: buckets = next_power_of_two(cap * 8 / 7), 40-byte entries + 1 control byte per
+/// bucket + 16). None = the computation overflows (capacity-overflow panic). Checked against the
+/// allocator's measurement for valid records in the C27 preamble.
+pub fn map_alloc_bytes(count: u64) -> Option<u64> {
+    let cap = count.max(65536);
+    let buckets = (cap.checked_mul(8)? / 7).checked_next_power_of_two()?;
+    let data = buckets.checked_mul(40)?.checked_add(15)? & !15;
+    let total = data.checked_add(buckets)?.checked_add(16)?;
+    if total > isize::MAX as u64 {
+        return None;
+    }
+    Some(total)
 }
 
 struct Cur<'a> {
@@ -717,7 +726,7 @@ fn walk_state_in(c: &mut Cur) -> W<()> {
     c.done_field();
     c.opt_bytes("etag")?;
     let count = c.u64("delta_state")?;
-    if map_lower_bound(count) > c.limit {
+    if map_alloc_bytes(count).map(|b| b > c.limit).unwrap_or(true) {
         return Err(Stop::Oversize { site: Site::MapCount, field: "delta_state", value: count });
     }
     c.done_field();
